@@ -54,7 +54,7 @@ func Run(tier string, seed uint64, modelPath, repo string, out *res.Result) erro
 	out.Rule = "L1: random page lists (<=5 pages, anchor names from a pool of 5 incl. the empty name, internal/external/attachment links incl. dangling) through resolveLinks, " +
 		"random bookmark-level lists (length<=12, levels 1..9 jumping both ways, 3% with levels<=0) through makeBookmarkTree, compared with the Lean models (exact per-page anchor sequence) and judged; corpus documents first; " +
 		"L2: generated HTML documents (headings/ids incl. duplicates, internal/dangling/external links, bookmark CSS, metadata, transforms, backgrounds/gradients/images, all border styles, " +
-		"radii, outlines, text decorations, tables, lists, columns, inline SVG with unique fill colours, page breaks, bleed/marks, zoom 0.5/1/2) written onto a recording backend; " +
+		"radii, outlines, text decorations, tables, lists, columns, inline SVG with unique fill colours, font-family lists mixing Ahem/weasyprint with DejaVu Sans/Serif/Mono and texts mixing ASCII with Greek/Cyrillic/arrows/box drawing (several fonts per DrawText) in paragraphs, bold/italic spans, SVG <text> and margin boxes, page breaks, bleed/marks, zoom 0.5/1/2) written onto a recording backend; " +
 		"the call sequence is judged by the Lean monitor; non-trivial = L1 case with >=2 entries / document with >=40 backend calls; distinct by input text"
 	render.Quiet()
 	t0 := time.Now()
@@ -635,6 +635,13 @@ func check(m *mp.Model, spec *docSpec, caseSeed uint64, fonts text.FontConfigura
 		return nil, fmt.Errorf("monitor: %s", ans)
 	}
 
+	for _, e := range rec.Events {
+		if e.Op == "DrawText" && len(uniqInts(e.Fonts)) >= 2 {
+			hit("doc:drawtext-with-several-fonts")
+			break
+		}
+	}
+
 	// ---- every number finite
 	if len(rec.NonFinite) != 0 {
 		u := uniq(rec.NonFinite)
@@ -842,6 +849,9 @@ func classify(v sx.X, rec *Rec, spec *docSpec) (string, string, string) {
 	e := rec.Events[idx]
 	ctx := contextOf(rec, idx)
 	why := fmt.Sprintf("%s: call #%d %s; preceding calls on the canvas: %s", cls, idx, e.String(), ctx)
+	if cls == "global" && e.Op == "DrawText" {
+		return cls, "DrawText:unregistered-font", fmt.Sprintf("call #%d %s uses a font that no AddFont registered on a canvas of its page before; preceding calls on the canvas: %s", idx, e.String(), ctx)
+	}
 	switch cls {
 	case "empty-path", "no-current-point":
 		// the last fill colour set at this stack level of this canvas before the call
@@ -937,6 +947,18 @@ func shortCtx(rec *Rec, idx int) string {
 		}
 	}
 	return strings.Join(parts, ",")
+}
+
+func uniqInts(xs []int) []int {
+	seen := map[int]bool{}
+	var out []int
+	for _, x := range xs {
+		if !seen[x] {
+			seen[x] = true
+			out = append(out, x)
+		}
+	}
+	return out
 }
 
 func uniq(xs []string) []string {
